@@ -157,6 +157,9 @@ class MerkleCache(object):
         self.length = 0
         self.level = []
         self.depth_higher = 0
+        # Counts truncations and extensions, so that an extension can tell whether the
+        # cache changed while it was fetching hashes
+        self._version = 0
         self.initialized = Event()
 
     def _segment_length(self):
@@ -174,14 +177,19 @@ class MerkleCache(object):
 
     async def _extend_to(self, length):
         '''Extend the length of the cache if necessary.'''
-        if length <= self.length:
-            return
-        # Start from the beginning of any final partial segment.
-        # Retain the value of depth_higher; in practice this is fine
-        start = self._leaf_start(self.length)
-        hashes = await self.source_func(start, length - start)
-        self.level[start >> self.depth_higher:] = self._level(hashes)
-        self.length = length
+        while length > self.length:
+            # Start from the beginning of any final partial segment.
+            # Retain the value of depth_higher; in practice this is fine
+            start = self._leaf_start(self.length)
+            version = self._version
+            hashes = await self.source_func(start, length - start)
+            # A truncation (the hashes may be those of orphaned blocks) or another
+            # extension may have happened in the meantime; if so start over
+            if version != self._version:
+                continue
+            self.level[start >> self.depth_higher:] = self._level(hashes)
+            self.length = length
+            self._version += 1
 
     async def _level_for(self, length):
         '''Return a (level_length, final_hash) pair for a truncation
@@ -209,6 +217,8 @@ class MerkleCache(object):
             raise TypeError('length must be an integer')
         if length <= 0:
             raise ValueError('length must be positive')
+        # Even if nothing is dropped, hashes being fetched for an extension are now suspect
+        self._version += 1
         if length >= self.length:
             return
         length = self._leaf_start(length)
